@@ -421,8 +421,15 @@ Section Serde.
                   end
               | Some (IStrEnum _ _ _ sa so _ _) =>
                   match v with
-                  | VVariant "Other" (Some (VStr s)) => strenum_ser sa so (EOther s)
-                  | VVariant i None => strenum_ser sa so (EVariant i)
+                  | VVariant i p =>
+                      (* `Other(s)` is the only variant with a payload *)
+                      if String.eqb i "Other"
+                      then match p with
+                           | Some (VStr s) => strenum_ser sa so (EOther s)
+                           | None => strenum_ser sa so (EVariant i)
+                           | _ => None
+                           end
+                      else match p with None => strenum_ser sa so (EVariant i) | Some _ => None end
                   | _ => None
                   end
               end
